@@ -40,7 +40,8 @@ ValidOrderE(srcs, E, order) ==
 ClassE(E, n) == IF RealCycleE(E, n) THEN "cycle" ELSE IF SelfDepE(E, n) THEN "self-dependency" ELSE "acyclic"
 AllowedOutcomeE(srcs, E, cls, out) ==
     CASE cls = "cycle" -> ~out.ok
-      [] cls = "self-dependency" -> ~out.ok \/ ValidOrderE(srcs, E, out.order)
+      [] cls = "self-dependency" -> ~out.ok      \* "comes after each source that builds a binary it build-depends on" has no
+                                                 \* solution when that source is itself: a cycle of length one
       [] cls = "acyclic" -> out.ok /\ ValidOrderE(srcs, E, out.order)
 
 \* ---- rendering as .dsc ---------------------------------------------------------
